@@ -202,6 +202,13 @@ def spec_large():
 def expand_large(sp):
     """as expand(); mode 'jitter': the second diagram is a jittered, shuffled copy of the first plus a few short bars
     (the regime of a real comparison: most points matched across, in both coordinates)"""
+    if sp["mode"] == "chain":
+        # X_i = (2i, 2i + H), Y_i = (2i + 1, 2i + 1 + H): every cross cost is an odd integer, the identity pairing costs 1, and at
+        # threshold 1 the feasibility graph is ONE path through all 2n points - the worst case for a depth-first augmenting search
+        n, H = sp["sizes"][0], 100.0 * sp["sizes"][0]
+        X = [[2.0 * i, 2.0 * i + H] for i in range(n)]
+        Y = [[2.0 * i + 1.0, 2.0 * i + 1.0 + H] for i in range(n)]
+        return [Y, X] if sp.get("swap") else [X, Y]
     if sp["mode"] != "jitter":
         return expand(sp)
     rng = random.Random(sp["seed"])
@@ -224,6 +231,11 @@ def check_differential_large(case, ctx):
     ctx.label("mode:" + case["spec"]["mode"], "MN>=10000" if len(X) * len(Y) >= 10000 else None, "M+N>=475" if len(X) + len(Y) >= 475 else None)
     ctx.nontrivial(len(X) * len(Y) >= 10000)
     tol = 1e-9 * scale_of(X, Y)
+    if case["spec"]["mode"] == "chain":
+        b = dist(ctx, "b", X, Y)
+        ctx.require(b == 1.0, "b_value", lambda: "chain diagrams with %d points each: bottleneck=%r, the identity pairing costs 1 and every pairing costs >= 1" % (len(X), b))
+        ctx.label("chain_n=%d" % len(X))
+        return
     b = dist(ctx, "b", X, Y)
     rb = M.bottleneck_ref(X, Y)
     ctx.require(abs(b - rb) <= tol, "b_value", lambda: "bottleneck=%r reference=%r |X|=%d |Y|=%d" % (b, rb, len(X), len(Y)))
@@ -238,6 +250,10 @@ def large_fixed_cases():
     for i, (m, n) in enumerate(sizes):
         for mode in ("lattice", "jitter", "float"):
             yield {"spec": {"seed": 1000 + 17 * i, "sizes": [m, n], "mode": mode, "L": 50, "k": 0, "shift": 3}}
+    # chain-structured diagrams of 300 / 520 (thorough: up to 800) points each, both argument orders
+    for n in [300, 520] + ([650, 800] if TIER == "thorough" else []):
+        for swap in (False, True):
+            yield {"spec": {"seed": n, "sizes": [n, n], "mode": "chain", "L": 50, "k": 0, "shift": 0, "swap": swap}}
 
 
 _q = 1 if TIER == "quick" else 1
